@@ -57,4 +57,7 @@ impl PublicKey {
         !(self.scheme is Unknown) && ring::signature::sig_valid(alg_of(self.scheme), self.value.0@, msg, sig.value.0@)
     }
     pub closed spec fn kid(self) -> KeyId { self.key_id }
+    pub closed spec fn scheme_v(self) -> SignatureScheme { self.scheme }
+    pub closed spec fn typ_v(self) -> KeyType { self.typ }
+    pub closed spec fn bytes_v(self) -> Seq<u8> { self.value.0@ }
 }
